@@ -126,7 +126,7 @@ SPEC = dict(
     nontrivial=nontrivial,
     histogram=histogram,
     translate=translate,
-    rule="Proof: 31 theorems of coq/score/C01.v (+ 2 of C01History.v), for all inputs (no size bound): generic pipeline cell = defined "
+    rule="Proof: 36 theorems of coq/score/C01.v (+ 2 of C01History.v, + 7 of C01Scores.v), for all inputs (no size bound): generic pipeline cell = defined "
          "left-to-right sum for any carrier/addition (score_generic_cell, score_unstripe: exactly L-M+1 values, none "
          "when L<M; score_rows_sub; score_position); AVX2 permute and gather kernels, the AVX2 wrapper, the SSE2 "
          "kernel (any multiple of 16 columns; abstract addition with x+0=x off -0, instantiated for binary32 from "
@@ -143,6 +143,17 @@ SPEC = dict(
          "real-number statement Holds_C01), C01_model_passes_checker (no false alarm on the model); "
          "C01History.v: the Striped hypothesis is discharged for the state reached by any history of "
          "stripe/stripe_into/configure/configure_wrap calls of the C04 model. "
+         "Round 3, C01.v: C01_score_dispatch_arm_eq(_f32) (any dispatcher arm table, incl. the Arm one with the NEON arm at 16 columns), "
+         "C01_wrapper_guards_as_modelled (presence, order and nesting depth of the guards / resize / kernel call of the AVX2, SSE2 and "
+         "NEON safe wrappers as regenerated from the source), C01_scores_iter_double_ended, C01_scores_offset. "
+         "C01Scores.v (7 theorems): the statement skeleton of scores.rs (resize, empty/Default, is_empty, offset, Index, "
+         "Iter::new/get, unstripe; regenerated into GenScores.v by translate/score_scores.py on every run) is the model's "
+         "(C01_scores_skeleton_as_modelled); the default score_rows_into never reads the buffer (C01_score_rows_into_ignores_buffer); after ANY "
+         "history of score_into / score_rows_into (any pipeline, motif, sequence, alphabet, row range) / resize / clone / Default calls on one "
+         "buffer, from any initial content, a scoring call gives what the generic pipeline gives on a fresh buffer (C01_scores_history, "
+         "C01_scores_history_last_call_only) and after a full scan len / is_empty / unstripe are those of that call: L-M+1 defined scores "
+         "(C01_scores_history_content; C01_scores_history_sub_range: a final sub-range call gives rows a..b of the full scan, max_index = L-M+1); "
+         "the defined score is never -0.0 and a motif of +-0.0 cells scores +0.0 (C01_score_never_negative_zero). "
          "Correspondence run: DNA (K=5, AVX2 permute path) and protein (K=21, AVX2 gather path) cases; C=32 through "
          "Pipeline::generic/sse2/avx2, Pipeline::dispatch() and ScoringMatrix::score under each forced arm "
          "(verif hook) and unforced; C=16 and C=48 through generic and SSE2; M in 0..40; L in {0..M+2}, "
@@ -158,15 +169,24 @@ SPEC = dict(
          "compared bit for bit with the extracted Coq model at binary32 (Flocq); PROPFAIL is decided by the "
          "extracted, proved-sound checkers check_C01 (count, definition/tolerance n*2^-23*sum|t|, -inf), "
          "check_same_results and check_subrange (equality of the bit patterns across pipelines, arms and "
-         "sub-range calls). Non-trivial: distinct (alphabet, "
-         "C, L mod C, size class, M, has -inf, sub-ranges, wrap kind) with L >= M and >= 2 distinct symbols.",
+         "sub-range calls). Round 3, in addition: C=64 through generic and SSE2 next to 16/48; StripedScores::iter as a double-ended iterator, offset and the "
+         "From/AsRef/Deref/Default conversions (tokens il/rv/mx/of/cv; corpus/C01/columns.txt); 10 % history cases (2-4 motifs, 2-4 sequences "
+         "incl. same-row-count/different-length, L<M, empty, both alphabets; 3-14 ops S/R/Z/C/D/F = score_into, score_rows_into, resize, clone, "
+         "Default, matrix_mut().fill(garbage) on ONE StripedScores<f32, C> buffer; every step replayed with the extracted hstep from the observed "
+         "state; buffer state also after caught panics; unstripe, len, is_empty, Index, Vec::from, rev after every step through the skeleton "
+         "functions sk_* written from GenScores.v; PROPFAIL = a scoring call on a configured sequence that differs from the same call through "
+         "the generic pipeline on a fresh buffer); 8 % cases with a FINITE wildcard column, 15-60 % wildcard symbols and 20-100 % +-0.0 cells "
+         "at 16/32 columns; corpus/C01/history.txt (22 histories). Non-trivial: distinct (alphabet, "
+         "C, L mod C, size class, M, has -inf, sub-ranges, wrap kind) with L >= M and >= 2 distinct symbols; a non-trivial history has "
+         ">= 2 scoring calls and >= 3 steps, distinct by (C, op kinds, pipelines).",
     trusted_base=[
         "Coq 8.16.1 kernel (coqc); vm_compute only in the lane-layout reflection (avx2_layout_ok) and the Example lemmas; no native_compute",
         "Flocq 4.1 (BinarySingleNaN, Plus_error, Relative) as the definition of IEEE-754 binary32 addition, through LMBase.IEEE; the classical axioms of Coq's Reals that Flocq's B2R theorems use (sig_forall_dec, sig_not_dec, functional_extensionality_dep, classic) under the 13 theorems that mention reals or the -0 lemma",
         "extraction: ExtrOcamlBasic only (nat, N, Z, positive, Flocq floats kept as extracted inductives); OCaml 4.13.1",
         "hand-written OCaml driver ocaml/score/driver.ml (parsing, conversion to the extracted types, comparison of the model's cells with the observed ones, sampling of rows for the costly kernel models)",
         "Rust harness harness/src/bin/score.rs (calls the public API, catch_unwind, prints bit patterns; `=` back-references for results identical to the generic pipeline's)",
-        "translators translate/score_avx2.py (regex extraction of the AVX2 shuffle masks and which accumulator each feeds, permute2f128 operands, store offsets, the dispatcher's match arms) and translate/score_lane4.py (SSE2 unpack / NEON zip network as paths of halves, accumulator pairing, store offsets, presence and order of the guards of the SSE2 and NEON safe wrappers); both also require the loop and pointer-advance statements to have the modelled shape",
+        "translators translate/score_avx2.py (regex extraction of the AVX2 shuffle masks and which accumulator each feeds, permute2f128 operands, store offsets, the dispatcher's match arms) and translate/score_lane4.py (SSE2 unpack / NEON zip network as paths of halves, accumulator pairing, store offsets, presence, order AND nesting depth of the guards of the AVX2, SSE2 and NEON safe wrappers; the dispatcher tables are read cfg-aware: x86 and Arm); both also require the loop and pointer-advance statements to have the modelled shape",
+        "translator translate/score_scores.py (regex match of 17 statement lists of scores.rs, small expression parser for the index expressions; tolerates commuted +, *, ==, min and either order of independent statements; a parse failure is a broken obligation)",
         "lane-wise semantics given to the x86 intrinsics in coq/score/SimdModel.v (shuffle_epi8, unpack*_epi8, permutevar8x32, i32gather, permute2f128, cmpeq/and, add_ps, stream stores), exercised by the correspondence run",
         "modelled, not verified: the Rust code itself (pli/mod.rs, avx2.rs, sse2.rs, dispatch.rs, scores.rs, seq.rs, pwm/mod.rs as read); the NEON f32 kernel is modelled and tied by the translator and the proof only (not compiled on this host, never executed: its intrinsics semantics is untested)",
         "for C01History.v: the striping model and theorems of property C04 (coq/stripe, another group)",
